@@ -478,6 +478,139 @@ theorem setAt_other (l : List Bool) (n m : Nat) (v : Bool) (h : m ≠ n) : (setA
       | zero => simp [setAt]
       | succ k => simp [setAt]; exact ih j k (by omega)
 
+/-! ## FAST switch states: snapshots and events -/
+
+theorem setAt_length (l : List Bool) (n : Nat) (v : Bool) : (setAt l n v).length = l.length := by
+  induction l generalizing n with
+  | nil => rfl
+  | cons x r ih => cases n <;> simp [setAt, ih]
+
+theorem setAt_get' (l : List Bool) (n m : Nat) (v : Bool) :
+    (setAt l n v)[m]? = (l[m]?).map (fun cur => if n = m then v else cur) := by
+  by_cases h : m = n
+  · subst h
+    by_cases hl : m < l.length
+    · rw [setAt_get l m v hl]; simp [hl]
+    · have h1 : (setAt l m v)[m]? = none := by
+        rw [List.getElem?_eq_none_iff, setAt_length]; omega
+      have h2 : l[m]? = none := by rw [List.getElem?_eq_none_iff]; omega
+      rw [h1, h2]; rfl
+  · rw [setAt_other l n m v h]
+    have : ¬ n = m := fun e => h e.symm
+    cases l[m]? <;> simp [this]
+
+theorem snapUpd_get (cfg inv bits l : List Bool) (n : Nat) :
+    (snapUpd cfg inv bits l)[n]? = (l[n]?).map (snapAt cfg inv bits n) := by
+  induction l generalizing cfg inv bits n with
+  | nil => cases cfg <;> cases inv <;> cases bits <;> simp [snapUpd]
+  | cons x r ih =>
+    cases cfg with
+    | nil => cases hx : (x :: r)[n]? <;> simp [snapUpd, snapAt, hx]
+    | cons c cs =>
+      cases inv with
+      | nil => cases hx : (x :: r)[n]? <;> simp [snapUpd, snapAt, hx]
+      | cons i is =>
+        cases bits with
+        | nil => cases hx : (x :: r)[n]? <;> simp [snapUpd, snapAt, hx]
+        | cons b bs =>
+          cases n with
+          | zero => cases c <;> simp [snapUpd, snapAt]
+          | succ k =>
+            simp only [snapUpd, List.getElem?_cons_succ]
+            rw [ih]
+            cases r[k]? <;> simp [snapAt]
+
+theorem swApply_cfg (s : PSw) (o : SOp) : (swApply s o).cfg = s.cfg ∧ (swApply s o).inv = s.inv := by
+  cases o with
+  | snap bits => exact ⟨rfl, rfl⟩
+  | ev n a => simp only [swApply]; split <;> exact ⟨rfl, rfl⟩
+
+/-- one report acts on each switch separately -/
+theorem swApply_get (s : PSw) (o : SOp) (n : Nat) :
+    (swApply s o).logical[n]? = (s.logical[n]?).map (fun cur => sayAt s n cur o) := by
+  cases o with
+  | snap bits => simp only [swApply, sayAt]; exact snapUpd_get _ _ _ _ n
+  | ev m a =>
+    simp only [swApply, sayAt]
+    by_cases hc : s.cfg[m]? = some true
+    · simp only [hc, if_true]
+      rw [setAt_get']
+      cases hl : s.logical[n]? with
+      | none => rfl
+      | some cur =>
+        by_cases hm : m = n
+        · subst hm; simp [hc]
+        · simp [hm]
+    · simp only [hc, if_false]
+      cases hl : s.logical[n]? with
+      | none => rfl
+      | some cur =>
+        by_cases hm : m = n
+        · subst hm; simp [hc]
+        · simp [hm]
+
+theorem sayAt_cfg (s s' : PSw) (h : s'.cfg = s.cfg ∧ s'.inv = s.inv) (n : Nat) (cur : Bool) (o : SOp) :
+    sayAt s' n cur o = sayAt s n cur o := by
+  cases o <;> simp [sayAt, h.1, h.2]
+
+/-- the state of switch `n` after a run is the fold of what the reports say about `n` -/
+theorem swRun_get (ops : List SOp) : ∀ (s : PSw) (n : Nat),
+    (swRun s ops).logical[n]? = (s.logical[n]?).map (fun cur => ops.foldl (sayAt s n) cur) ∧
+    (swRun s ops).cfg = s.cfg ∧ (swRun s ops).inv = s.inv := by
+  induction ops with
+  | nil => intro s n; cases h : s.logical[n]? <;> simp [swRun, h]
+  | cons o r ih =>
+    intro s n
+    have hc := swApply_cfg s o
+    obtain ⟨h1, h2, h3⟩ := ih (swApply s o) n
+    simp only [swRun]
+    refine ⟨?_, h2.trans hc.1, h3.trans hc.2⟩
+    rw [h1, swApply_get]
+    cases s.logical[n]? with
+    | none => rfl
+    | some cur =>
+      simp only [Option.map_some, List.foldl_cons]
+      congr 1
+      have : (fun c o => sayAt (swApply s o) n c o) = (fun c o => sayAt (swApply s o) n c o) := rfl
+      have e : sayAt (swApply s o) n = sayAt s n := by
+        funext c o'; exact sayAt_cfg s (swApply s o) hc n c o'
+      rw [e]
+
+/-- a report says nothing about switch `n` -/
+def Silent (s : PSw) (n : Nat) (o : SOp) : Prop := ∀ cur, sayAt s n cur o = cur
+
+theorem foldl_silent (s : PSw) (n : Nat) (post : List SOp) (h : ∀ o ∈ post, Silent s n o) (cur : Bool) :
+    post.foldl (sayAt s n) cur = cur := by
+  induction post generalizing cur with
+  | nil => rfl
+  | cons o r ih =>
+    simp only [List.foldl_cons]
+    rw [h o List.mem_cons_self cur]
+    exact ih (fun x hx => h x (List.mem_cons_of_mem _ hx)) cur
+
+theorem swRun_hw_last (pre post : List SOp) (bits : List Bool) (s : PSw)
+    (h : ∀ o ∈ post, ∀ b, o ≠ .snap b) : (swRun s (pre ++ .snap bits :: post)).hw = bits := by
+  have key : ∀ (post : List SOp) (s : PSw), (∀ o ∈ post, ∀ b, o ≠ .snap b) → (swRun s post).hw = s.hw := by
+    intro post
+    induction post with
+    | nil => intro s _; rfl
+    | cons o r ih =>
+      intro s h
+      simp only [swRun]
+      rw [ih _ (fun x hx => h x (List.mem_cons_of_mem _ hx))]
+      cases o with
+      | snap b => exact absurd rfl (h _ List.mem_cons_self b)
+      | ev n a => simp only [swApply]; split <;> rfl
+  have app : ∀ (a b : List SOp) (s : PSw), swRun s (a ++ b) = swRun (swRun s a) b := by
+    intro a
+    induction a with
+    | nil => intro b s; rfl
+    | cons o r ih => intro b s; simp [swRun, ih]
+  rw [app]
+  simp only [swRun]
+  rw [key post _ h]
+  rfl
+
 /-! ## OPP: resynchronisation after idle -/
 
 /-- frame lengths the automaton can be waiting for -/
